@@ -412,6 +412,8 @@ func (s *sgen) having(kinds map[string]byte) string {
 		bs = append(bs, b)
 	}
 	sort.Strings(bs)
+	s.q.eqOnly = true
+	defer func() { s.q.eqOnly = false }()
 	return " having " + s.q.havingExpr(bs, 1)
 }
 
